@@ -214,7 +214,7 @@ func (w *World) ruleCgoExtents(rule string) {
 					if isTestFile(w, f.Pos()) {
 						continue
 					}
-					instrs(f, func(ins ssa.Instruction) {
+					instrsFlat(f, func(ins ssa.Instruction) {
 						if c, ok := ins.(ssa.CallInstruction); ok && c.Common().IsInvoke() && c.Common().Method.Name() == r.fn.Name() {
 							if iface, ok := c.Common().Value.Type().Underlying().(*types.Interface); ok && types.Implements(r.fn.Signature.Recv().Type(), iface) {
 								ifaceCallers = append(ifaceCallers, c)
@@ -323,7 +323,7 @@ func (w *World) ruleUntrustedInts(rule string) {
 			continue
 		}
 		n := 0
-		instrs(fn, func(ins ssa.Instruction) {
+		instrsFlat(fn, func(ins ssa.Instruction) {
 			var idx ssa.Value
 			var cont ssa.Value
 			switch x := ins.(type) {
@@ -392,6 +392,15 @@ func (w *World) ruleUntrustedInts(rule string) {
 					if x.Index == v {
 						risky = true
 					}
+				case *ssa.Call:
+					// handed on to an extracted helper: its parameter is the same integer
+					if h := helperCallee(x); h != nil {
+						for j, a := range x.Call.Args {
+							if a == v && j < len(h.Params) {
+								visit(h.Params[j])
+							}
+						}
+					}
 				}
 				if !risky {
 					continue
@@ -416,7 +425,7 @@ func (w *World) ruleUntrustedInts(rule string) {
 								hasHi = true
 							}
 						}
-						argOK := len(c.Call.Args) > 1 && stripConv(c.Call.Args[1]) == ssa.Value(p)
+						argOK := len(c.Call.Args) > 1 && (stripConv(c.Call.Args[1]) == ssa.Value(p) || ref.Parent() != p.Parent() && render(c.Call.Args[1]) == render(v))
 						if hasLo && hasHi && argOK {
 							guarded = true
 						}
@@ -441,7 +450,7 @@ func (w *World) ruleUntrustedInts(rule string) {
 		if isTestFile(w, fn.Pos()) {
 			continue
 		}
-		instrs(fn, func(ins ssa.Instruction) {
+		instrsFlat(fn, func(ins ssa.Instruction) {
 			var idx, cont ssa.Value
 			switch x := ins.(type) {
 			case *ssa.IndexAddr:
@@ -491,7 +500,7 @@ func (w *World) inspectorInvariant(rule string, T *types.Named) bool {
 		if isTestFile(w, fn.Pos()) {
 			continue
 		}
-		instrs(fn, func(ins ssa.Instruction) {
+		instrsFlat(fn, func(ins ssa.Instruction) {
 			st, ok := ins.(*ssa.Store)
 			if !ok {
 				return
@@ -522,7 +531,7 @@ func (w *World) rulePanics(rule string) {
 			if isTestFile(w, fn.Pos()) || strings.HasSuffix(w.Fset.Position(fn.Pos()).Filename, "_test_utils.go") || strings.HasSuffix(w.Fset.Position(fn.Pos()).Filename, "rand_utils.go") {
 				continue
 			}
-			instrs(fn, func(ins ssa.Instruction) {
+			instrsFlat(fn, func(ins ssa.Instruction) {
 				switch x := ins.(type) {
 				case *ssa.Panic:
 					n++
@@ -664,7 +673,6 @@ func (w *World) ruleNilSlices(rule string, d *dkgAnchors) {
 		w.check(len(keys) == 0 && nidx > 0, rule, name+"/no-index-of-unallocated-slice", ts.methods["HandleBroadcastMsg"].Pos(), fmt.Sprintf("in %d reachable states / %d transitions every index of y, vA, a happens with the slice allocated (%d index events)", len(ts.states), len(ts.trans), nidx), fmt.Sprintf("%d construct(s) index an unallocated slice field", len(keys)))
 	}
 }
-
 
 func fieldOfLoad(v ssa.Value) *types.Var {
 	if u, ok := stripConv(v).(*ssa.UnOp); ok && u.Op == token.MUL {
